@@ -47,6 +47,8 @@ def plan(tier, seed):
     S += [{"kind": "hostile_fp", "rlimit_as": AS_CAP}]
     S += [{"kind": "str", "sub": "pairs", "part": i, "parts": 4 if q else 8, "rlimit_as": AS_CAP} for i in range(4 if q else 8)]
     S += [{"kind": "str", "sub": "literals", "rlimit_as": AS_CAP}, {"kind": "str", "sub": "rand", "stream": 0, "n": 500 if q else 5000, "rlimit_as": AS_CAP}]
+    # the same constructions in threads that did not import claripy (per-thread state of the backends is created lazily)
+    S += [{"kind": "thread", "of": of, "stream": i, "n": 250 if q else 2500, "rlimit_as": AS_CAP} for i, of in enumerate(["hostile_bv", "bv_rand", "fp_tree", "bv_tmpl"])]
     return S
 
 
@@ -210,6 +212,8 @@ def run_shard(spec, res):
 
     rng = random.Random(f"{spec['seed']}:{PID}:{spec['kind']}:{spec.get('stream')}:{spec.get('sub')}:{spec.get('S')}:{spec.get('op')}:{spec.get('part')}")
     builders = {"bv": bvb.build, "fp": fpbuild.build, "str": strbuild.build}
+    if spec["kind"] == "thread":
+        return thread_shard(spec, res, rng, builders)
     signal.signal(signal.SIGALRM, _alarm)
     keep = []
     n = 0
@@ -220,6 +224,53 @@ def run_shard(spec, res):
         for dbg in (True, False) if n % 3 == 0 else (True,):
             judge(fam, d, dbg, builders[fam], res, rng, keep)
     claripy.set_debug(True)
+
+
+def thread_shard(spec, res, rng, builders):
+    """a sample of another shard's constructions, each batch built in a fresh thread"""
+    import itertools
+    import threading
+
+    import claripy
+
+    from vf.gen import build as bvb
+
+    src = dict(spec, kind=spec["of"], n=spec["n"] if spec["of"] != "bv_tmpl" else 2)
+    cases = [(fam, d) for fam, d in itertools.islice(_cases(src, rng), spec["n"] * 4) if fam != "bv" or bvb.well_formed(d)]
+    rng.shuffle(cases)
+    cases = cases[: spec["n"]]
+    batch = 25
+    for i in range(0, len(cases), batch):
+        out = []
+
+        def work(chunk=cases[i : i + batch], out=out):
+            for fam, d in chunk:
+                try:
+                    ast = builders[fam](d)
+                    out.append((fam, d, None, isinstance(ast, claripy.ast.Base), None))
+                except BaseException as e:  # noqa: BLE001
+                    out.append((fam, d, e, False, traceback.format_exc()))
+
+        t = threading.Thread(target=work)
+        t.start()
+        t.join(timeout=300)
+        res.count("threads_used")
+        if t.is_alive():
+            res.inconc("SUSPECTED-HANG: a batch built in a thread did not finish within 300 s")
+            return
+        for fam, d, e, is_ast, tb in out:
+            res.case(["thread", fam, d], True)
+            res.count("built_in_thread")
+            if e is None:
+                if not is_ast:
+                    res.violation({"kind": "crash", "what": "not-an-AST", "family": fam, "case": d, "where": "non-main thread"})
+                continue
+            ok, why = allowed(e, fam, d, rng)
+            if ok:
+                res.count("raised_allowed")
+                res.count("allowed:" + why)
+            else:
+                res.violation({"kind": "crash", "what": type(e).__name__, "family": fam, "case": d, "observed": repr(e)[:300], "where": "non-main thread", "tb": (tb or "")[-1800:]})
 
 
 def judge(fam, d, dbg, builder, res, rng, keep):
